@@ -49,8 +49,8 @@ def check_trace(lines, is_log):
 
 
 def leg(ctx, pid, modes, is_log, min_acks):
-    t0 = time.time()
     binp = ctx["build"]({"name": "native", "build": "native"})
+    t0 = time.time()  # the budget covers the workload, not a (re)build of the binary
     rnd = random.Random(ctx["seed"] * 7919 + 13)
     runs = 12 if ctx["tier"] == "quick" else 90
     res = {"evaluations": 0, "distinct_nontrivial": 0, "samples": [], "counters": {}, "violations": [], "violations_total": 0,
